@@ -217,6 +217,7 @@ def _build(repo, cfg, scratch, mir_path, cap):
         (r"^parse_nmea_sentence$", s_parse_nmea),
         (r"^(?:core::)?slice::<impl \[u8\]>::iter$", s_iter),
         (r"as Iterator>::fold::<u8,", s_fold),
+        (r"as Iterator>::(?:take|skip)$", lambda ex, st, c, a, v, f: ok1(st, Opaque("iter-adapter", (v[0], v[1])))),
         (r"^(?:messages::)?unarmor$", s_unarmor),
         (r"^messages::parse$", s_msgparse),
         (r"^<(?:std::vec::)?Vec<u8> as Deref>::deref$|^<(?:heapless::)?Vec<u8, \d+> as Deref>::deref$", s_deref_opaque_vec),
